@@ -45,6 +45,8 @@ func (e *shift) SubMergers(subs []Expr) []SubMerge {
 		if e.String() == sub.String() {
 			sms[i] = e.subMerge
 			matched = true
+			// only merge from the first matching sub
+			break
 		}
 	}
 	if matched {
